@@ -6,7 +6,7 @@
 //   - X.Lock() / X.RLock() (also under defer) become
 //     simrt.Acquire(X.TryLock, X.Lock) / simrt.Acquire(X.TryRLock, X.RLock),
 //     and X.Unlock() / X.RUnlock() are followed by simrt.Released();
-//   - exported functions of the internal packages get a function-entry yield;
+//   - the internal packages and cfgerrors are instrumented the same way (class "internal");
 //   - a package simrt with nil-by-default hooks is dropped into the copy.
 //
 // The rewrite is purely syntactic; with the hooks nil the copy behaves like
@@ -136,13 +136,10 @@ func instrumentFile(path, rel string, rootPkg bool) error {
 			continue
 		}
 		class := classOf(fd, rootPkg)
-		if rootPkg {
-			rewriteBlock(fd.Body, rel, class)
-		} else if fd.Name.IsExported() {
-			pos := fset.Position(fd.Pos())
-			fd.Body.List = append([]ast.Stmt{yieldStmt(rel, pos.Line, class)}, fd.Body.List...)
-			nYields++
-		}
+		// statement granularity everywhere: a changed tree may share mutable
+		// structures of the internal packages (origin tree, sets) between a
+		// writer and in-flight requests
+		rewriteBlock(fd.Body, rel, class)
 	}
 	if nYields+nLocks == before {
 		return nil
